@@ -44,7 +44,10 @@ impl DeltaEnv {
             // the pager from the environment variables, because we want to make sure
             // that the pager is a valid pager from env and handle the case of
             // the PAGER being set to something invalid like "most" and "more".
-            bat::config::get_pager_executable(None),
+            // What comes back is the program alone, unquoted; it is split like a command
+            // line again later, so a path that contains blanks has to be quoted again.
+            bat::config::get_pager_executable(None)
+                .map(|program| shell_words::quote(&program).into_owned()),
         );
 
         Self {
